@@ -59,6 +59,9 @@ type Config struct {
 	StopOn string
 	// NoRecorders disables the router-test recorders (observer-transparency self-test)
 	NoRecorders bool
+	// MutateScenario edits the drawn scenario before the world is built (used by C08 to run a
+	// sibling world that differs only in its environment right before a sampled world)
+	MutateScenario func(sc *gen.Scenario)
 	// IsKnown says whether a violation is a recorded open finding: those are counted and the
 	// run goes on (so that a known defect does not hide what lies behind it)
 	IsKnown func(prop, fp string) bool
@@ -271,6 +274,9 @@ func NewWorld(t *sim.Tape, cfg *Config) (*World, error) {
 	w.Seams.Install()
 	w.Now = simStart
 	w.Sc = gen.NewScenario(t, cfg.Gen)
+	if cfg.MutateScenario != nil {
+		cfg.MutateScenario(w.Sc)
+	}
 	w.EnvSpec = w.Sc.Env
 
 	// swarm: which fault kinds are on in this run
@@ -589,7 +595,7 @@ func (w *World) personaText(qrs []string) string {
 	t.Begin("persona_text")
 	defer t.End()
 	vocab := w.Sc.Vocab
-	switch t.Weighted("textkind", 5, 4, 3, 2, 1, 1, 1, 1, 1, 1, 1) {
+	switch t.Weighted("textkind", 5, 4, 3, 2, 1, 1, 1, 1, 1, 1, 1, 3) {
 	case 0:
 		if len(vocab) > 0 {
 			return vocab[t.Pick("vocab", len(vocab))]
@@ -601,7 +607,7 @@ func (w *World) personaText(qrs []string) string {
 		}
 		return "no"
 	case 2:
-		return []string{"7", "18", "10", "-1", "3.5", "1,000", "٣", "1'500.25", "1 500,5", "1.500,25", "I paid 2'000 today"}[t.Pick("num", 11)]
+		return []string{"7", "18", "10", "-1", "3.5", "1,000", "٣", "1'500.25", "1 500,5", "1.500,25", "I paid 2'000 today", "1 500.5", "3,500.75", "2'500", "4 000"}[t.Pick("num", 15)]
 	case 3:
 		return []string{"2020-02-29", "29-02-2020", "02/29/2020", "31.12.19 23:59", "tomorrow", "10:30", "12am"}[t.Pick("date", 7)]
 	case 4:
@@ -616,6 +622,21 @@ func (w *World) personaText(qrs []string) string {
 		return "YES please"
 	case 9:
 		return "ａ fullwidth ｙｅｓ"
+	case 11:
+		// somebody who writes numbers, dates and times the way this workspace formats them
+		e := &w.Sc.Env
+		dec, grp := ".", ","
+		if e.NumberFormat != nil {
+			dec, _ = (*e.NumberFormat)["decimal_symbol"].(string)
+			grp, _ = (*e.NumberFormat)["digit_grouping_symbol"].(string)
+		}
+		day := map[string]string{"YYYY-MM-DD": "2021-03-04", "DD-MM-YYYY": "04-03-2021", "MM-DD-YYYY": "03-04-2021"}[e.DateFormat]
+		tm := "15:04"
+		if strings.Contains(e.TimeFormat, "aa") {
+			tm = "3:04 pm"
+		}
+		return []string{"1" + grp + "500" + dec + "25", "2" + grp + "000", "12" + grp + "345" + grp + "678", "it was 3" + grp + "250 francs", dec + "5",
+			day, day + " " + tm, tm, "03-04-2021", "on 05/06/07 at 8"}[t.Pick("local", 10)]
 	default:
 		return "maybe one two red"
 	}
